@@ -6,8 +6,9 @@
    fix 2159c02) for every heuristic tape; noforce_can_stall is the formal record of the repaired defect: without
    the fix a tape that always declines makes the loop run forever on a 3-variable network.
    The candidate pipeline's loops (greedy flips, simulation rounds) and the block expansion have explicit bounds too.
-   The attractor-seed expansion terminates within 2 * 3^n + 3 iterations (expand_aseeds_terminates).
-   PARTIAL: the SCC strategy is bounded by the back-edge budget and the watchdog only.
+   The attractor-seed expansion terminates within 2 * 3^n + 3 iterations (expand_aseeds_terminates); the source-SCC strategy
+   within n + 2 levels at every nesting depth (expand_scc_terminates: levels descend strictly, every nesting level loses a
+   free variable), its two assertions can never fire (expand_scc_no_assert) and its edges stay strict (expand_scc_EdgeStrict).
 
    This file contains only restatements closed by `exact` (statements produced by Coq's own
    `Check` of the library lemma) plus non-vacuity Examples, each followed by Print Assumptions. *)
@@ -16,7 +17,7 @@ Import ListNotations.
 From BB Require Import BN Brute SpaceFacts TrapFacts PercolateFacts AttractorFacts Diagram Invariants Checks Filter
   Strict PetriNet Control Meta FilterFacts PetriNetFacts TrappistFacts DiagramStruct DiagramSem1 DiagramCache
   DiagramDepth DiagramComplete Termination ControlFacts MetaFacts Candidates StrictFacts MinExpandFacts CandidatesFacts SymbolicTest SymbolicTestFacts Signed ReductionFacts ControlFacts2 Main Blocks BlocksFacts ObsFacts OwnerFacts CandidatesTerm
-  PartialOwner BlockMath BlockComplete ASeeds ASeedsFacts LogChecks SkipRule SkipRuleFacts Names NamesFacts Perm PermFacts SCC SCCFacts SCCStruct ControlFacts3.
+  PartialOwner BlockMath BlockComplete ASeeds ASeedsFacts LogChecks SkipRule SkipRuleFacts Names NamesFacts Perm PermFacts SCC SCCFacts SCCStruct ControlFacts3 SCCTerm FilterSym.
 
 Theorem C13_size_bound : forall (N : net) (d : sd), SWF N d -> size d <= max_nodes N.
 Proof. exact size_bound. Qed.
@@ -80,6 +81,21 @@ Proof. exact expand_aseeds_terminates. Qed.
 Theorem C13_sanitize_clash_loop_terminates : forall (cur : list name) (nm : name), exists k : nat, fresh (S (length cur)) cur nm = Some (repeat 95%N k ++ nm) /\ k <= length cur /\ ~ In (repeat 95%N k ++ nm) cur /\ (forall j : nat, j < k -> In (repeat 95%N j ++ nm) cur).
 Proof. exact fresh_total. Qed.
 
+(* source-SCC strategy: fuel n + 2 always suffices *)
+Theorem C13_scc_expansion_terminates : forall (fuel : nat) (N : net) (cfg : config) (d : sd) (maa : bool) (tape : tape_t), 1 <= max_motifs cfg -> SWF N d -> TrapNodes N d -> EdgeStrict d -> nvars N + 2 <= fuel -> snd (expand_scc fuel N cfg d maa tape) <> RFuel.
+Proof. exact expand_scc_terminates. Qed.
+
+(* neither assertion of the strategy can fail *)
+Theorem C13_scc_expansion_no_assert : forall (fuel : nat) (N : net) (cfg : config) (d : sd) (maa : bool) (tape : tape_t), 1 <= max_motifs cfg -> SWF N d -> TrapNodes N d -> EdgeStrict d -> snd (expand_scc fuel N cfg d maa tape) <> RRaised ErrAssert.
+Proof. exact expand_scc_no_assert. Qed.
+
+Theorem C13_scc_expansion_edge_strict : forall (fuel : nat) (N : net) (cfg : config) (d : sd) (maa : bool) (tape : tape_t), 1 <= max_motifs cfg -> SWF N d -> TrapNodes N d -> EdgeStrict d -> EdgeStrict (fst (expand_scc fuel N cfg d maa tape)).
+Proof. exact expand_scc_EdgeStrict. Qed.
+
+(* the candidate filter with the real reachability procedure never runs out of fuel *)
+Theorem C13_symbolic_filter_total : forall (fuel : nat) (N : net) (S : space) (seeds_only : bool) (motifs : list (list (option bool))) (cands : list state) (tapes : sym_tape), trap_space N S -> (forall M : list (option bool), In M motifs -> length M = nvars N /\ subspace M S = true) -> (forall c : state, In c cands -> in_space c S = true) -> NoDup cands -> symbolic_test_fuel S <= fuel -> compute_attractors_sym fuel N S seeds_only motifs cands tapes <> None.
+Proof. exact compute_attractors_sym_total. Qed.
+
 Print Assumptions C13_size_bound.
 Print Assumptions C13_bfs_terminates.
 Print Assumptions C13_dfs_terminates.
@@ -99,3 +115,7 @@ Print Assumptions C13_unfixed_loop_can_stall.
 Print Assumptions C13_fixed_loop_answers_on_that_instance.
 Print Assumptions C13_aseeds_expansion_terminates.
 Print Assumptions C13_sanitize_clash_loop_terminates.
+Print Assumptions C13_scc_expansion_terminates.
+Print Assumptions C13_scc_expansion_no_assert.
+Print Assumptions C13_scc_expansion_edge_strict.
+Print Assumptions C13_symbolic_filter_total.
